@@ -4,6 +4,7 @@
    record k of what is known about the call:
 
      tr          "wsgi" | "base"
+     rpc         an RPC request (FALSE for a ?wsdl fetch)
      soap        TRUE for SOAP 1.1 / 1.2 (status is always 500)
      done        the call, including the consumption of the body, is over
      fault       the call ended in a fault
@@ -113,7 +114,7 @@ CloseAfterBody(h, k) == (k.tr = "wsgi" /\ Has(h, "app", "method_context_closed")
      /\ \A i \in Chunks(h) : i < c
      \* closed when the body is exhausted, or when the server closes the iterable
      /\ (k.done => Has(h, "io", "iterclose") /\ c < Last(h, "io", "iterclose"))
-WsgiCloseOnce(h, k) == k.tr = "wsgi" =>
+WsgiCloseOnce(h, k) == (k.tr = "wsgi" /\ k.rpc) =>
                          /\ Count(h, "wsgi", "wsgi_close") <= 1
                          /\ (k.done => Count(h, "wsgi", "wsgi_close") = 1)
 \* "at most max_content_length bytes are ever read from the input stream"
@@ -130,7 +131,7 @@ TooLongRefused(h, k) == (k.done /\ k.toolong) =>
 NoFnOnInFault(h, k) == k.infault => ~Has(h, "fn", "call")
 \* "a request that is merely malformed ... Client family ... never a Server fault"
 BadReqIsClient(h, k) == (k.done /\ k.malformed) => (k.fault /\ IsClientCode(k.code) /\ ~Has(h, "fn", "call"))
-StatusTable(h, k) == (k.done /\ k.tr = "wsgi" /\ k.statusKnown) =>
+StatusTable(h, k) == (k.done /\ k.tr = "wsgi" /\ k.statusKnown /\ k.rpc) =>
      /\ k.status = Status(k.soap, k.cls, k.code)
      /\ \A i \in Idx(h) : h[i][1] = "sr" => h[i][2] = k.status
 NoEscape(h) == \A i \in Idx(h) : h[i][1] # "escape"
